@@ -79,7 +79,8 @@ Definition run_op (s : state) (o : op) : state * obs :=
       end
   | OGlobal c dmax oP oL =>
       let want := if (oP =? 0) && (oL =? 0) then BErr else BTs oP oL in
-      match try_deltas s c want (map Z.of_nat (seq 0 (S dmax))) with
+      (* the most likely offset first: the one that makes the estimate's physical part the answer's *)
+      match try_deltas s c want (Z.max 0 (oP - fst (gmem s)) :: map Z.of_nat (seq 0 (S dmax))) with
       | Some r => r
       | None => global_with s c 0
       end
